@@ -11,9 +11,11 @@ const ADV: [&str; 34] = [
 const SHELLS: [&str; 6] = ["fish", "zsh", "pwsh", "elvish", "nu", "bash"];
 
 #[derive(Clone, Debug)]
-struct TA { id: String, short: Option<char>, long: Option<String>, kind: u8, help: usize, pvs: Vec<(String, Option<usize>)> } // kind 0 flag 1 option 2 positional
+struct TA { id: String, short: Option<char>, long: Option<String>, kind: u8, help: usize, pvs: Vec<(String, Option<usize>)>,
+    /// the text is given as `long_help` only (no `help`): generators that fall back to it must escape it all the same
+    long_only: bool } // kind 0 flag 1 option 2 positional
 #[derive(Clone, Debug)]
-struct TC { name: String, alias: Option<String>, about: Option<usize>, args: Vec<TA>, subs: Vec<TC> }
+struct TC { name: String, alias: Option<String>, about: Option<usize>, args: Vec<TA>, subs: Vec<TC>, long_about_only: bool }
 
 /// slots are numbered; `kinds[i]` is what the slot is
 #[derive(Clone, Copy, Debug, PartialEq)]
@@ -37,20 +39,21 @@ fn gen_tc(rng: &mut Rng, depth: usize, name: String, kinds: &mut Vec<K>, shorts:
             let with_help = rng.chance(2, 3);
             (0..1 + rng.below(3)).map(|j| (format!("{id}v{j}"), if with_help && rng.chance(3, 4) { Some(slot(K::PvHelp, kinds)) } else { None })).collect()
         } else { vec![] };
-        args.push(TA { id, short, long, kind, help, pvs });
+        args.push(TA { id, short, long, kind, help, pvs, long_only: rng.chance(1, 5) });
     }
     let nsubs = if depth >= 2 { 0 } else { rng.below(3) };
     let subs = (0..nsubs).map(|i| { let mut sh: Vec<char> = "abcdefgijkmnopqrstuwxyz".chars().collect(); gen_tc(rng, depth + 1, format!("{}s{i}", if depth == 0 { "".to_string() } else { format!("{name}-") }), kinds, &mut sh) }).collect();
     let alias = if depth > 0 && rng.chance(1, 3) { Some(format!("{name}-al")) } else { None };
-    TC { name, alias, about, args, subs }
+    let long_about_only = rng.chance(1, 5);
+    TC { name, alias, about, args, subs, long_about_only }
 }
 
 fn build(tc: &TC, texts: &[String]) -> Command {
     let mut c = Command::new(tc.name.clone());
-    if let Some(a) = tc.about { c = c.about(texts[a].clone()); }
+    if let Some(a) = tc.about { c = if tc.long_about_only { c.long_about(texts[a].clone()) } else { c.about(texts[a].clone()) }; }
     if let Some(a) = &tc.alias { c = c.visible_alias(a.clone()); }
     for a in &tc.args {
-        let mut x = Arg::new(a.id.clone()).help(texts[a.help].clone());
+        let mut x = if a.long_only { Arg::new(a.id.clone()).long_help(texts[a.help].clone()) } else { Arg::new(a.id.clone()).help(texts[a.help].clone()) };
         if let Some(s) = a.short { x = x.short(s); }
         if let Some(l) = &a.long { x = x.long(l.clone()); }
         x = match a.kind { 0 => x.action(ArgAction::SetTrue), _ => x.action(ArgAction::Set) };
@@ -95,6 +98,8 @@ pub fn run(o: &Opts) -> Report {
             let mut t = rng.pick(&ADV[..]).to_string();
             if rng.chance(1, 3) { t = format!("{} {}", rng.pick(&ADV[..]), t); }
             if rng.chance(1, 3) { t = format!("word {t} word"); }
+            // long descriptions: a special character around the 100th character (a cap on the ESCAPED text would split it)
+            if rng.chance(1, 6) { t = format!("{}{t}", "x".repeat(88 + rng.below(16))); }
             t }).collect();
         rep.count("commands");
         for shell in SHELLS {
